@@ -46,6 +46,12 @@ def cases(tier, seed):
                     if tier == 'quick' and curved and len(cuts) in (2, 4) and len(seq) == 1 and seq[0] not in ('b1d_bf', 't2d'):
                         continue
                     out.append(dict(kind='bay', curved=curved, cuts=list(cuts), stiffs=list(seq), seed=seed))
+    # skins whose strips differ in laminate, ply thickness and density: global skin matrices = sum of stand-alone strips
+    for curved in (0, 1):
+        for k in range(1, (2 if tier == 'quick' else 4) + 1):
+            for cuts in itertools.combinations(range(len(CUTS)), k):
+                for how in ('plyt', 'plyts', 'stack+mu'):
+                    out.append(dict(kind='hetero', curved=curved, cuts=list(cuts), how=how, seed=seed))
     return out
 
 
@@ -253,5 +259,54 @@ def check_bay(case):
     return dict(fails=fails[:6], execs=execs, transitions=execs, nontrivial=int(len(stiffs) + len(cuts) > 0))
 
 
+def check_hetero(case):
+    """Bay skin made of strips that differ in ply thickness / laminate / density, relying on the bay defaults for everything else."""
+    from compmech.stiffpanelbay import StiffPanelBay
+    from compmech.panel import Panel
+    fails = []
+    spb = StiffPanelBay()
+    spb.a, spb.b, spb.m, spb.n = 0.8, 0.5, 4, 5
+    if case['curved']:
+        spb.r = 2.0
+    spb.stack, spb.plyt, spb.laminaprop, spb.mu = [0., 90., 90., 0.], pan.PLYT, pan.M6, 1500.
+    ys = [0.0] + [CUTS[i] * spb.b for i in case['cuts']] + [spb.b]
+    defs = []
+    for k, (y1, y2) in enumerate(zip(ys[:-1], ys[1:])):
+        kw = {}
+        if k:                                   # the first strip relies on the bay defaults alone
+            if case['how'] == 'plyt':
+                kw = dict(plyt=pan.PLYT * (1 + 0.5 * k))
+            elif case['how'] == 'plyts':
+                kw = dict(plyts=[pan.PLYT * (1 + 0.25 * k * (i + 1)) for i in range(4)])
+            else:
+                kw = dict(stack=[30., -30.] * k, mu=1500. + 400. * k, plyt=pan.PLYT * (1 + 0.3 * k))
+        spb.add_panel(y1=y1, y2=y2, Nxx=-1.0e3, Nxy=0.3e3, **kw)
+        defs.append((y1, y2, kw))
+    G = mats(spb)
+    execs = 3
+    size = 3 * 4 * 5
+    total = {nm: np.zeros((size, size)) for nm in G}
+    flagnames = [d + e + t + ax for d in 'uvw' for e in '12' for t in 'tr' for ax in 'xy']
+    for (y1, y2, kw) in defs:
+        q = Panel(a=spb.a, b=spb.b, m=spb.m, n=spb.n, r=spb.r, y1=y1, y2=y2, stack=kw.get('stack', spb.stack),
+                  plyt=kw.get('plyt', spb.plyt), laminaprop=spb.laminaprop, mu=kw.get('mu', spb.mu))
+        if 'plyts' in kw:
+            q.plyts = list(kw['plyts'])
+        q.model = spb.panels[0].model
+        for f in flagnames:
+            setattr(q, f, getattr(spb, f))
+        q.Nxx, q.Nxy = -1.0e3, 0.3e3
+        total['k0'] += pan.dense(q.calc_k0(silent=True))
+        total['kG0'] += pan.dense(q.calc_kG0(silent=True))
+        total['kM'] += pan.dense(q.calc_kM(silent=True))
+        execs += 3
+    for nm in G:
+        sc = np.abs(total[nm]).max() + 1e-300
+        if G[nm].shape != total[nm].shape or np.abs(G[nm] - total[nm]).max() > 1e-11 * sc:
+            fails.append(fail('bay %s of a skin with differing strips is not the sum of the strips evaluated stand-alone' % nm, sig=None, case=case,
+                              rel=float(np.abs(G[nm] - total[nm]).max() / sc) if G[nm].shape == total[nm].shape else None))
+    return dict(fails=fails[:6], execs=execs, transitions=execs, nontrivial=1)
+
+
 def check_case(case):
-    return check_assembly(case) if case['kind'] == 'assembly' else check_bay(case)
+    return dict(assembly=check_assembly, bay=check_bay, hetero=check_hetero)[case['kind']](case)
